@@ -2,76 +2,28 @@ package main
 
 import (
 	"fmt"
-	"math/rand"
-	"regexp"
-	"strings"
+	"time"
 
-	rc "github.com/frankkopp/FrankyGo/verifh/refchess"
+	"github.com/frankkopp/FrankyGo/internal/config"
+	"github.com/frankkopp/FrankyGo/internal/position"
+	"github.com/frankkopp/FrankyGo/internal/search"
 )
 
-var re = regexp.MustCompile(`^[NBRQ][a-h][1-8]x[a-h][1-8]`)
-
 func main() {
-	preludes := []string{
-		"a2a4 b7b5 a4b5 d7d5 b5b6 h7h5 b6a7 h8h6 a7b8n",
-		"h2h4 g7g5 h4g5 e7e5 g5g6 a7a5 g6h7 a8a6 h7g8r",
-		"a2a3 h7h5 b2b3 h5h4 c2c3 h4h3 d2d3 h3g2 e2e3 g2h1n",
-	}
-	r := rand.New(rand.NewSource(11))
-	found := 0
-	for try := 0; try < 400000 && found < 4; try++ {
-		b := rc.MustFEN(rc.StartFEN)
-		var ms []string
-		pre := preludes[try%len(preludes)]
-		ok := true
-		for _, u := range strings.Fields(pre) {
-			f := false
-			for _, l := range b.Legal() {
-				if l.UCI() == u {
-					b = b.Apply(l)
-					ms = append(ms, u)
-					f = true
-					break
-				}
-			}
-			if !f {
-				ok = false
-				break
-			}
-		}
-		if !ok {
-			continue
-		}
-		for i := 0; i < 26; i++ {
-			legal := b.Legal()
-			if len(legal) == 0 {
-				break
-			}
-			var hit *rc.Move
-			for k := range legal {
-				if b.Sq[legal[k].To] != 0 && re.MatchString(b.SAN(legal[k], rc.SanOpts{})) {
-					hit = &legal[k]
-					break
-				}
-			}
-			if hit != nil {
-				ms = append(ms, hit.UCI())
-				fmt.Println(strings.Join(ms, " "), " // ", b.SAN(*hit, rc.SanOpts{}))
-				found++
-				break
-			}
-			// prefer knight / rook moves
-			var pick rc.Move
-			pick = legal[r.Intn(len(legal))]
-			for t := 0; t < 8; t++ {
-				c := legal[r.Intn(len(legal))]
-				if p := b.Sq[c.From]; p == 'N' || p == 'n' || p == 'R' || p == 'r' {
-					pick = c
-					break
-				}
-			}
-			ms = append(ms, pick.UCI())
-			b = b.Apply(pick)
-		}
+	config.LogLevel = 0
+	config.SearchLogLevel = 0
+	config.Settings.Search.UseBook = false
+	config.Settings.Search.TTSize = 4
+	fen := "4r3/p1k2pp1/1p4q1/2p5/3r1p2/4N3/P4QBP/6RK w - - 0 1"
+	s := search.NewSearch()
+	for _, us := range []int{0, 200, 500, 1000, 2000, 3000, 5000, 8000} {
+		s.NewGame()
+		p, _ := position.NewPositionFen(fen)
+		s.StartSearch(*p, search.Limits{Nodes: 9654, Depth: 9})
+		time.Sleep(time.Duration(us) * time.Microsecond)
+		p2, _ := position.NewPositionFen(fen)
+		s.StartSearch(*p2, search.Limits{Depth: 1})
+		s.WaitWhileSearching()
+		fmt.Println("sleep", us, "nodes", s.NodesVisited(), "depth", s.LastSearchResult().SearchDepth)
 	}
 }
